@@ -24,7 +24,7 @@ from ioflo.aid.odicting import odict
 from ioflo.base import logging as L, tasking
 from ioflo.base.storing import Store, Node
 from ioflo.base.globaling import (NEVER, ONCE, ALWAYS, UPDATE, CHANGE, STREAK, DECK,
-                                  START, RUN, STOP, STOPPED)
+                                  START, RUN, STOP)
 
 PROPERTY = "C22"
 ENGINE = "E1"
@@ -54,7 +54,7 @@ class _House(object):
     name = "h"
 
 
-def _world(rule, fields_by_tag=None):
+def _world(rule):
     L.Logger.Clear(); tasking.Tasker.Clear(); L.Log.Clear()
     store = Store.__new__(Store)
     store.name = "s"
@@ -268,7 +268,6 @@ def _rule(sym, fs, ctx, rule, sel, K, dmax, vmax, nops, pre, op0):
         else:
             run(RUN, "RUN")
     run(STOP, "STOP")
-    sym.check(logger.status == STOPPED and log.file is None, "C22/%s/stop-did-not-close" % rn)
     # whole file: [old text] header records
     text = fs.files[path].os
     if pre:
